@@ -4,7 +4,9 @@ import vlib, cellcommon
 from vlib import Infra
 
 RULE = ("S->C: Boc_HdrFuzz (TLC) composes adversarial headers (3 magics x flags x ref width 1..4 x offset width 1..8 x counters from byte patterns up to 2^32-1 x short tails); Boc_Fuzz (TLC) mutates small conforming bags (every truncation, 5..20 substitution values at every byte) and labels "
-        "each mutant with the first guard of Boc!Parse it fails; all mutants are fed to the real parser. C->S: truncations, "
+        "each mutant with the first guard of Boc!Parse it fails; Boc_SemFuzz (TLC) writes conforming containers around exotic cells of every type with every data "
+        "length around what the type needs (0..3 references, as root or below a parent, descriptor level bits equal to / different from the stored mask); "
+        "all of them are fed to the real parser and to its hex / base64 / single-root entry points, which must agree with it. C->S: truncations, "
         "substitutions, bit flips, multi-byte mutations of own output and of bags harvested from the repository, hand-written "
         "adversarial headers and random bytes; each call runs in a child process under recover with allocation and time measured; "
         "Cells_Trace accepts a Parse event only without panic, within budget, acyclic, <=1023 bits / <=4 refs per cell, with Hash/"
@@ -86,7 +88,13 @@ def run(ck):
     if len(hdrs) < 1000:
         raise Infra("Boc_HdrFuzz produced only %d headers" % len(hdrs))
     ck.extra["spec_headers"] = len(hdrs)
-    muts = muts + hdrs
+    # conforming containers around ill-formed exotic cells (every type x every data length around what it needs)
+    sres = ck.tlc_or_infra("Boc_SemFuzz", "gen/Boc_SemFuzz_full.cfg" if ck.thorough else "gen/Boc_SemFuzz_quick.cfg", workers=4, timeout=1200, name="boc_semfuzz", heap_gb=3)
+    sems = sres.vecs()
+    if len(sems) < 3000:
+        raise Infra("Boc_SemFuzz produced only %d bags" % len(sems))
+    ck.extra["spec_exotic_bags"] = len(sems)
+    muts = muts + hdrs + sems
     guards = {}
     for m in muts:
         guards[m["guard"]] = guards.get(m["guard"], 0) + 1
@@ -124,6 +132,12 @@ def run(ck):
             elif what == "post":
                 key = "C07:post-panic:" + panic_class(e["post"])
                 msg = "Hash/ToString/ToBoc on a returned root panicked: " + e["post"]
+            elif what == "helpers" and e.get("hpanic"):
+                key = "C07:panic:helper:" + e["hpanic"].split(":")[0]
+                msg = "panic in a convenience entry point over the parser: " + e["hpanic"]
+            elif what == "helpers":
+                key = "C07:helpers:verdict-differs"
+                msg = "the hex / base64 / single-root entry points disagree with DeserializeBoc (roots=%s helpers=%s)" % (e.get("nroots"), e.get("helpers"))
             elif what == "acyclic":
                 key = "C07:cyclic-result"
                 msg = "the parser returned a cell that (transitively) references itself"
